@@ -415,7 +415,17 @@ func r02a(c *core.Ctx) {
 	if pl != nil {
 		for _, ret := range returnsOf(pl) {
 			e := core.Expr(ret.Results[0])
-			c.Check(e == "(phi(254|len(n)) + 1)", "size:Name", ret.Pos(), pl, "Name.PackLen = min(len, 254) + 1 (labels with their length octets plus the root octet)", e)
+			okClamp := e == "(phi(254|len(n)) + 1)"
+			if bo, isB := ret.Results[0].(*ssa.BinOp); isB && bo.Op == token.ADD && !okClamp {
+				if k, isC := core.ConstInt(bo.Y); isC && k == 1 {
+					if inner, limit, ok := upperClamp(bo.X); ok {
+						if lim, isC := core.ConstInt(limit); isC && lim == 254 && core.Expr(inner) == "len(n)" {
+							okClamp = true // the if-clamp or the min builtin, either operand order
+						}
+					}
+				}
+			}
+			c.Check(okClamp, "size:Name", ret.Pos(), pl, "Name.PackLen = min(len, 254) + 1 (labels with their length octets plus the root octet)", e)
 		}
 	}
 }
@@ -810,13 +820,29 @@ func r02f(c *core.Ctx) {
 		n++
 		// key = string(n[lo:]) or unsafeStr[lo:]
 		var sl *ssa.Slice
-		for _, o := range []ssa.Value{keyV, core.Strip(keyV)} {
+		cands := []ssa.Value{keyV, core.Strip(keyV), core.Unspill(keyV)}
+		if os := core.Origins(keyV, core.OriginOpts{}); len(os) == 1 {
+			cands = append(cands, os[0], core.Strip(os[0])) // the key computed into a local first
+		}
+		for _, o := range cands {
 			if s, ok := o.(*ssa.Slice); ok {
 				sl = s
 			}
 			if cv, ok := o.(*ssa.Convert); ok {
-				if s, ok := cv.X.(*ssa.Slice); ok {
+				inner := core.Unspill(cv.X)
+				for {
+					if ct, ok := inner.(*ssa.ChangeType); ok { // []byte(Name) when the suffix is handed to a helper
+						inner = core.Unspill(ct.X)
+						continue
+					}
+					break
+				}
+				if s, ok := inner.(*ssa.Slice); ok {
 					sl = s
+				} else if os := core.Origins(cv.X, core.OriginOpts{}); len(os) == 1 {
+					if s, ok := os[0].(*ssa.Slice); ok {
+						sl = s
+					}
 				}
 			}
 		}
